@@ -95,8 +95,12 @@ struct String {
     }
 
     String &operator=(const Char_T *str) {
-        deallocate();
+        // 'str' can point into this string's own storage: build the copy before releasing it.
+        Char_T *old = Storage();
+
         copyString(str, StringUtils::Count(str));
+        Memory::Deallocate(old);
+
         return *this;
     }
 
